@@ -350,7 +350,21 @@ func (fx *Fx) builtin(st *State, name string, call *ast.CallExpr) []Val {
 		ch := fx.eval(st, call.Args[0])
 		closed := st.heap("CC", "(Array Int Bool)")
 		phi := fmt.Sprintf("(and (not (= %s 0)) (not (select %s %s)))", ch.T, closed, ch.T)
-		c.oblige(st, "chan-close-once", "close("+fx.exprText(call.Args[0])+")", phi, "close of open, non-nil channel: "+fx.exprText(call), fx.w.pos(call.Pos()))
+		if gk, gr := fx.containerGuardKey(st, call.Args[0]); gk != "" && fx.w.closedOnceBy(gk) != "" {
+			// a channel field declared closed_once_by f: every close of it sits in the callback of that object's f.Do,
+			// so that sync.Once makes it the only close (the class is checked here, at every close of the field)
+			name := "addr_" + sanitize(fx.w.closedOnceBy(gk))
+			c.declareFun(name, []string{"Int"}, "Int")
+			want := fmt.Sprintf("(%s %s)", name, gr)
+			in := []string{"false"}
+			for _, m := range fx.onceStack {
+				in = append(in, fmt.Sprintf("(= %s %s)", m, want))
+			}
+			c.oblige(st, "chan-close-once", "close("+fx.exprText(call.Args[0])+")", "(and (not (= "+ch.T+" 0)) (or "+strings.Join(in, " ")+"))",
+				"close of "+fx.exprText(call.Args[0])+" happens inside the callback of its sync.Once ("+strings.TrimPrefix(fx.w.closedOnceBy(gk), "F:")+")", fx.w.pos(call.Pos()))
+		} else {
+			c.oblige(st, "chan-close-once", "close("+fx.exprText(call.Args[0])+")", phi, "close of open, non-nil channel: "+fx.exprText(call), fx.w.pos(call.Pos()))
+		}
 		st.assume(phi)
 		st.setHeap("CC", "(Array Int Bool)", fmt.Sprintf("(store %s %s true)", closed, ch.T))
 		st.logEvent(evTerm("Close", ch.T, "", "", ""))
